@@ -799,3 +799,43 @@ def find_method(module: Module, cls_name: str, meth: str) -> Optional[ast.Functi
             return m
         todo.extend(class_bases(node))
     return None
+
+
+# ---------------------------------------------------------------------------
+# Writers of an attribute path (E-D `writers`)
+
+MUTATORS = {"append", "extend", "pop", "clear", "update", "remove", "add", "discard", "insert", "sort", "reverse", "setdefault", "popitem", "difference_update", "intersection_update", "symmetric_difference_update"}
+HEAPQ_MUT = {"heapq.heappush", "heapq.heappop", "heapq.heapify", "heapq.heapreplace", "heapq.heappushpop", "random.shuffle"}
+
+
+def attr_writes(fn: ast.AST, path: str, include_nested: bool = True) -> List[Tuple[ast.AST, str]]:
+    """All nodes in `fn` that write `path` (e.g. 'self.queue'): (node, kind)."""
+    res: List[Tuple[ast.AST, str]] = []
+    it = ast.walk(fn) if include_nested else walk_local(fn)
+    for n in it:
+        if isinstance(n, ast.Assign):
+            for t in n.targets:
+                for x in ast.walk(t):
+                    if isinstance(x, (ast.Attribute, ast.Name)) and isinstance(getattr(x, "ctx", None), ast.Store) and dotted(x) == path:
+                        res.append((n, "assign"))
+                    if isinstance(x, ast.Subscript) and isinstance(x.ctx, ast.Store) and dotted(x.value) == path:
+                        res.append((n, "setitem"))
+        elif isinstance(n, (ast.AugAssign, ast.AnnAssign)):
+            t = n.target
+            if dotted(t) == path and (not isinstance(n, ast.AnnAssign) or n.value is not None):
+                res.append((n, "assign"))
+            if isinstance(t, ast.Subscript) and dotted(t.value) == path:
+                res.append((n, "setitem"))
+        elif isinstance(n, ast.Delete):
+            for t in n.targets:
+                if dotted(t) == path or (isinstance(t, ast.Subscript) and dotted(t.value) == path):
+                    res.append((n, "del"))
+        elif isinstance(n, ast.Call):
+            f = n.func
+            if isinstance(f, ast.Attribute) and f.attr in MUTATORS and dotted(f.value) == path:
+                res.append((n, f"call .{f.attr}"))
+            elif dotted(f) in HEAPQ_MUT and n.args and dotted(n.args[0]) == path:
+                res.append((n, f"call {dotted(f)}"))
+            elif dotted(f) == "setattr" and len(n.args) >= 2 and isinstance(n.args[1], ast.Constant) and f"{dotted(n.args[0])}.{n.args[1].value}" == path:
+                res.append((n, "setattr"))
+    return res
